@@ -100,8 +100,8 @@ check('C12',
       'warnings.showwarning are compared with their values at entry and no event loop may be left running, at normal and exceptional exits '
       '(verbosity 0..3 rotating; a body kind that closes the capture stream). PathCtx.tla models PythonPathContext around an import whose module '
       'changes sys.path itself, also by binding it to a new list object (every behaviour replayed); Capture.tla models CaptureStdout/TeeStringIO '
-      'as a state machine (construct, enter, print, leave; two objects, suppressing or teeing, enabled or not; invariants PartsExact, '
-      'NothingLostOrTwice, SuppressHides, TeeShows, RestoredLIFO, DisabledInert) and every behaviour of <=6 (quick) / <=8 steps is stepped through '
+      'as a state machine (construct, enter, print, leave, leave with an exception on its way out; two objects, suppressing or teeing, enabled or not; invariants PartsExact, '
+      'NothingLostOrTwice, SuppressHides, TeeShows, RestoredLIFO, DisabledInert, NeverSwallows) and every behaviour of <=6 steps (quick; 28 348) / a seeded sample of 200 000 of the 709 516 behaviours of <=8 steps (thorough) is stepped through '
       'the real objects with the projected state compared after each step; imports by path from zip archives (succeeding, failing, missing) are compared for '
       'sys.path, warning filters and streams; recorded run-loop traces are validated against DocRunTrace.tla (CapEnter/CapExit restore stdout).',
       DOCRUN_NOTE + ' Import by path outside a run (import_module_from_path) is covered by the C17 check.',
